@@ -289,9 +289,9 @@ Qed.
 
 Theorem dotdot_covers_climbs : forall q,
   old_route (q_route q) = true -> bad_bucket (q_bucket q) = false ->
-  req_dotdot q = false -> req_climbs q = false /\ req_noslash q = false.
+  req_dotdot q = false -> req_climbs q = false.
 Proof.
-  intros q OR G T. split; [|unfold req_noslash; destruct (q_route q); try reflexivity; discriminate OR].
+  intros q OR G T.
   pose proof (old_free_dd q T) as OF. pose proof (old_src_bad q T) as SB.
   pose proof (cover_object bad_dd forbid_none eq_refl (forbid_none_bad bad_dd) eq_refl q OF) as CO.
   pose proof (cover_object_dec bad_dd forbid_none eq_refl (forbid_none_bad bad_dd) eq_refl q G OF) as CD.
@@ -325,7 +325,7 @@ Theorem contained_partial : forall fx q,
   old_route (q_route q) = true ->
   bad_bucket (q_bucket q) = false -> req_dotdot q = false -> all_contained fx q = true.
 Proof.
-  intros fx q OR G T. destruct (dotdot_covers_climbs q OR G T) as [C N].
+  intros fx q OR G T. pose proof (dotdot_covers_climbs q OR G T) as C.
   apply contained_partial2; try assumption.
   intros k Hk. exact (cover_keys bad_dd forbid_none eq_refl (forbid_none_bad bad_dd) q k (old_free_dd q T) Hk).
 Qed.
@@ -372,6 +372,5 @@ Theorem uploads_hidden_partial : forall fx q,
 Proof.
   intros fx q OR G NU T TU.
   apply uploads_hidden_partial2; try assumption.
-  - exact (uploads_seg_covers_enters q OR G T TU).
-  - exact (proj2 (dotdot_covers_climbs q OR G T)).
+  exact (uploads_seg_covers_enters q OR G T TU).
 Qed.
